@@ -182,6 +182,8 @@ func (c *scase) label() string {
 		s += fmt.Sprintf(" from=%d to=%d", c.from, c.to)
 	case "check":
 		s += fmt.Sprintf(" upTo=%d", c.upTo)
+	case "fault":
+		s += fmt.Sprintf(" upTo=%d; the raw store under the stack fails the Put of round %d once; one Sync call per attempt", c.upTo, c.lost)
 	case "checkcorrect":
 		s += fmt.Sprintf(" check(upTo=%d) then correct what it listed; every stream asked from round %d is lost on all peers", c.upTo, c.lost)
 	}
@@ -347,6 +349,15 @@ func (g *gen) build(tier string) {
 				plants: []plant{{2, "badsig"}}, lost: hd + 2, witness: "check-beyond-head-then-correct"})
 			g.add(&scase{kind: "checkcorrect", w: w, bk: bkMem, sk: skAppend, head: hd, upTo: hd + 3,
 				plants: []plant{{3, "missing"}}, lost: 3, witness: "check-beyond-head-then-correct"})
+		}
+		// the raw store fails one Put once while a verified beacon is being stored; honest peers only
+		for _, bk := range g.backends(w) {
+			for _, fr := range []uint64{5, 7} { // 7 = the target itself
+				g.add(&scase{kind: "fault", w: w, bk: bk, sk: skAppend, head: 3, upTo: 7, lost: fr,
+					attempts: [][]*peerSpec{{w.honest(), w.honest()}, {w.honest()}, {w.honestNoMD()}}, witness: "transient-store-failure"})
+				g.add(&scase{kind: "fault", w: w, bk: bk, sk: skAppend, head: 3, upTo: 7, lost: fr,
+					attempts: [][]*peerSpec{{w.honest()}, {w.honest()}, {w.honest()}}, witness: "transient-store-failure"})
+			}
 		}
 		// F14: re-sync bypasses the scheme store (observation)
 		g.add(&scase{kind: "resync", w: w, bk: bkBoltU, sk: skAppend, head: 6, from: 3, to: 3,
@@ -518,6 +529,19 @@ func (g *gen) build(tier string) {
 		}
 		c.jobs = jobs
 		g.add(c)
+	}
+	// ---- transient store failure at a random round ----
+	for i := 0; i < 8*scale; i++ {
+		w := g.worlds[g.rng.Intn(len(g.worlds))]
+		head := uint64(g.rng.Intn(chainLen - 2))
+		upTo := head + 1 + uint64(g.rng.Intn(int(chainLen-head)))
+		fr := head + 1 + uint64(g.rng.Intn(int(upTo-head)))
+		first := []*peerSpec{w.honest()}
+		if g.rng.Intn(2) == 0 {
+			first = append(first, selfSpec(), w.honest())
+		}
+		g.add(&scase{kind: "fault", w: w, bk: g.pickBk(w), sk: skAppend, head: head, upTo: upTo, lost: fr,
+			attempts: [][]*peerSpec{first, {w.cut(0, eClose), w.honest()}, {w.honest()}}, descr: "random"})
 	}
 	// ---- check then correct, targets at, below and beyond the head ----
 	for i := 0; i < 12*scale; i++ {
